@@ -79,7 +79,7 @@ theorem lines8_ne_nil (cur t : Bytes) : lines8 cur t ≠ [] := by
 /-- the run that reported a text ending after `p` met no begin marker inside the text -/
 theorem no_marker_prefix (first : Bytes) (u16 : Bool) (k flen : Nat) (hk : 0 < k) (p x : Bytes) (restf : List Item) (ph1 : Nat) :
     ∀ (xs : List Item) (saved h : Bytes) (ts pos : Nat) (H : Bytes) (T S : Nat), Good xs → pos = ts + saved.length →
-      digestLoop true first u16 k flen (xs ++ (.line (p ++ x) ph1 :: restf)) saved h ts pos = .ok (H, T, S) →
+      digestLoop true true first u16 k flen (xs ++ (.line (p ++ x) ph1 :: restf)) saved h ts pos = .ok (H, T, S) →
       T = pos + (joinItems xs).length + p.length → ∀ l ph, Item.line l ph ∈ xs → l ≠ first := by
   intro xs
   induction xs with
@@ -94,9 +94,11 @@ theorem no_marker_prefix (first : Bytes) (u16 : Bool) (k flen : Nat) (hk : 0 < k
     · rw [if_pos hl] at e
       split at e
       · simp at e
-      · injection e with e; injection e with e1 e2; injection e2 with e2 e3
-        simp only [List.length_take] at e2
-        omega
+      · split at e
+        · simp at e
+        · injection e with e; injection e with e1 e2; injection e2 with e2 e3
+          simp only [List.length_take] at e2
+          omega
     · rw [if_neg hl] at e
       rcases List.mem_cons.mp hm with h1 | h1
       · injection h1 with h1 _; rw [h1]; exact hl
@@ -246,7 +248,7 @@ theorem locate_signed8 (f : Bytes) (style : Nat) (d : Digest) (st en sig : Bytes
   unfold DigestPS digestWith at e
   rw [hs] at e
   simp only [hu, Bool.false_eq_true, if_false] at e
-  cases hl : digestLoop true (firstLine st en false) false 2 f.length (lines8 [] f) [] [] 0 0 with
+  cases hl : digestLoop true true (firstLine st en false) false 2 f.length (lines8 [] f) [] [] 0 0 with
   | err _ => simp [hl] at e
   | panic _ => simp [hl] at e
   | diverge => simp [hl] at e
@@ -502,7 +504,7 @@ theorem locate_signed16 (f : Bytes) (style : Nat) (d : Digest) (st en sig : Byte
   unfold DigestPS digestWith at e
   rw [hs] at e
   simp only [hu, if_true] at e
-  cases hl : digestLoop true (firstLine st en true) true 4 f.length (lines16 [] f) [] [] 0 0 with
+  cases hl : digestLoop true true (firstLine st en true) true 4 f.length (lines16 [] f) [] [] 0 0 with
   | err _ => simp [hl] at e
   | panic _ => simp [hl] at e
   | diverge => simp [hl] at e
